@@ -25,7 +25,7 @@ ASSUMPTIONS = [
     "Hilbert models: reconstruction only (they offer no transform)",
     "score arrays carry the training sample dimension names (with new labels) plus 'mode'",
 ]
-TIERS = {"quick": (8, 50), "thorough": (16, 500)}
+TIERS = {"quick": (8, 120), "thorough": (16, 600)}
 
 CLASSES = (["EOF", "EOF", "ComplexEOF", "HilbertEOF", "EOFRotator", "ComplexEOFRotator"] + M.CROSS + M.HILBERT_CROSS)
 
